@@ -493,7 +493,7 @@ def words_of(raw):
 # ---------------------------------------------------------------- sessions
 
 def cmd(tag, s):
-    return {"op": "send", "conn": "c", "data": C.latin(("%s %s\r\n" % (tag, s)).encode("latin-1")), "until": "tag:%s" % tag}
+    return {"op": "send", "conn": "c", "data": C.latin(("%s %s\r\n" % (tag, s)).encode("latin-1")), "until": "tag:%s" % tag, "timeout_ms": 30000}
 
 
 def history_ops(rng):
